@@ -145,7 +145,9 @@ func builtinJSONStringify(call FunctionCall) Value {
 		if isArray(replacer) {
 			length := objectLength(replacer)
 			seen := map[string]bool{}
-			propertyList := make([]string, 0, length)
+			// No capacity hint: length is whatever the replacer array claims
+			// (a.length = 4294967295 would be a 64 GB request).
+			propertyList := make([]string, 0)
 			for index := range int(length) {
 				value := replacer.get(arrayIndexToString(int64(index)))
 				switch value.kind {
@@ -303,11 +305,14 @@ func builtinJSONStringifyWalk(ctx builtinJSONStringifyContext, key string, holde
 			default:
 				panic(ctx.call.runtime.panicTypeError(fmt.Sprintf("JSON.stringify: invalid length: %v (%[1]T)", value)))
 			}
-			array := make([]interface{}, length)
-			for index := range array {
+			// Appended element by element: sizing the slice by the claimed length
+			// up front (a.length = 4294967295) is a 64 GB request before the
+			// first element is even read.
+			array := make([]interface{}, 0)
+			for index := range length {
 				name := arrayIndexToString(int64(index))
 				value, _ := builtinJSONStringifyWalk(ctx, name, objHolder)
-				array[index] = value
+				array = append(array, value)
 			}
 			return array, true
 		} else if objHolder.class != classFunctionName {
